@@ -18,8 +18,18 @@ TraceText ==
     /\ IsEvent("Text")
     /\ Fidelity(FlatDoc(Traces[tid].hdr.doc), Traces[tid].hdr.fmt, Ev.obs, Ev.sep, Ev.residue, Dev)
 
+\* iterate_units(): numbers, per-unit texts, heading paths, unit tables; join law
+TraceUnits ==
+    /\ IsEvent("Units")
+    /\ Units(Traces[tid].hdr.doc, Traces[tid].hdr.fmt, Ev.units, Ev.full, Ev.joinok, Dev)
+
+\* iterate_tables(): grids and dimensions
+TraceTables ==
+    /\ IsEvent("Tables")
+    /\ TablesOK(Traces[tid].hdr.doc, Traces[tid].hdr.fmt, Ev.tables, Dev)
+
 TraceInit == tid \in 1..Len(Traces) /\ l = 1
-TraceNext == TraceText
+TraceNext == TraceText \/ TraceUnits \/ TraceTables
 TraceSpec == TraceInit /\ [][TraceNext]_vars
 TraceAccept ==
     /\ (l = Len(Traces[tid].ev) + 1) => PrintT(<<"ACCEPT", tid>>)
